@@ -18,7 +18,7 @@ from urllib3.exceptions import HTTPError
 
 from mc.common import Acc, HarnessError
 from mc.httpparse import response
-from mc.simnet import EOF, Net, Server, SimStall
+from mc.simnet import EOF, STALL, Net, Server, SimStall
 
 FILL = b"abcdefghijklmnopqrstuvwxyz"
 
@@ -35,8 +35,10 @@ def evil(i):
 # server behaviours: name -> needs method class
 GET_BEHAVIOURS = ["cl", "chunked", "close-delimited", "cl-conn-close", "204", "304", "100-then-200",
                   "204+stray-same-seg", "204+stray-later-seg", "eof-in-headers", "eof-in-body",
-                  "cl-then-silent-close", "cl-then-unsolicited", "chunked-then-unsolicited", "304+stray-same-seg"]
-POST_BEHAVIOURS = ["cl", "eof-in-headers", "cl-then-unsolicited", "cl-then-silent-close", "204+stray-same-seg"]
+                  "cl-then-silent-close", "cl-then-unsolicited", "chunked-then-unsolicited", "304+stray-same-seg",
+                  "stall-in-body-rest-late", "stall-before-status-reply-late"]
+POST_BEHAVIOURS = ["cl", "eof-in-headers", "cl-then-unsolicited", "cl-then-silent-close", "204+stray-same-seg",
+                   "stall-before-status-reply-late"]
 HEAD_BEHAVIOURS = ["head-cl", "head-cl+body-sent", "head-cl-conn-close", "head-chunked"]
 SEGMENTATIONS = ["whole", "split-after-head", "bytes"]
 CALLERS = ["preload", "read", "read2-release", "release", "drain", "close", "stream3", "abandon", "read2-abandon"]
@@ -76,6 +78,16 @@ def reply(behaviour, i):
         return response(200, p), [evil(i)]
     if behaviour == "chunked-then-unsolicited":
         return response(200, p, framing="chunked", chunks=[len(p)]), [evil(i)]
+    if behaviour == "stall-in-body-rest-late":
+        # the server goes quiet in the middle of the body (client read times out); the rest of the
+        # body only shows up later, when the socket is used again (see C03Server.late)
+        # ... and that rest happens to look like a complete response (body content is arbitrary
+        # bytes): a client that reuses the connection would take it for the next reply
+        full = response(200, p + evil(i))
+        k = len(full) - len(evil(i))
+        return full[:k], [STALL, ("LATE", full[k:])]
+    if behaviour == "stall-before-status-reply-late":
+        return b"", [STALL, ("LATE", response(200, p))]
     if behaviour == "head-cl":
         return b"HTTP/1.1 200 OK\r\nContent-Length: %d\r\n\r\n" % len(p), []
     if behaviour == "head-cl+body-sent":
@@ -102,6 +114,7 @@ class C03Server(Server):
         self.script = script  # list of (behaviour, segmentation) per logical request
         self.poisoned = 0
         self.reused = 0
+        self.late = {}  # sid -> bytes that arrive late, right when the socket is used again
 
     def on_request(self, sock, req, idx):
         try:
@@ -110,17 +123,25 @@ class C03Server(Server):
             raise HarnessError("unexpected target %r" % req.target)
         if sock.nreq > 1:
             self.reused += 1
-        if sock.rx:
-            # unread bytes / EOF still pending from before this request: whatever the client
-            # makes of this exchange must not become a response
+        late = self.late.pop(sock.sid, None)
+        if sock.rx or late is not None:
+            # unread bytes / EOF still pending from before this request (or the tail of the previous
+            # exchange arriving only now): whatever the client makes of this exchange must not
+            # become a response
             self.poisoned += 1
             body = b"POISON-dirty-socket-%d" % i
-            return [response(200, body)]
+            return ([late] if late else []) + [response(200, body)]
         behaviour, seg = self.script[i]
         if sock.nreq > 1 and behaviour in ("eof-in-headers", "eof-in-body") and False:
             pass
         main, trail = reply(behaviour, i)
-        return segment(main, seg) + trail
+        out = []
+        for t in trail:
+            if isinstance(t, tuple) and t[0] == "LATE":
+                self.late[sock.sid] = t[1]
+            else:
+                out.append(t)
+        return (segment(main, seg) if main else []) + out
 
 
 def mk_retries(name):
@@ -204,6 +225,8 @@ def execute(cfg, steps, acc=None, trace=None):
     for i, data in got.items():
         method = steps[i][0]
         want = b"" if method == "HEAD" else payload(i)
+        if steps[i][1] == "stall-in-body-rest-late":
+            want = payload(i) + evil(i)
         if not want.startswith(bytes(data)):
             viols.append(("foreign-bytes", {"behaviour": steps[i][1], "caller": steps[i][3], "method": method,
                                             "prev": steps[i - 1][1] if i else None, "prev_caller": steps[i - 1][3] if i else None},
